@@ -50,7 +50,10 @@ TABLE = {
                             'same binding; Rule.matches and the allow-list cache structure proved; policy predicates (is_allowlisted, '
                             'is_unsupported, isbuiltin) are uninterpreted: their tables are exercised by the bounded zoo only'),
     'C14': dict(level='other', bounded=[('c14_builtins.py', 'every call shape of the 13 builtins over value classes + context-sensitive builtins in nested bodies')],
-                explanation='bounded stand-in in this revision (event-mode contracts of the overloads pending)'),
+                explanation='proved (event mode): abs_/float_/int_/len_/range_/enumerate_/next_/filter_/any_/all_/sorted_ perform exactly one call of '
+                            'the builtin with the arguments as supplied, for every call shape (omitted optionals are symbolic sentinels), when no '
+                            'override is registered; bounded stand-in: value-level comparison incl. laziness and error types, print/zip/map, and '
+                            'the context-sensitive builtins'),
     'C15': dict(level='other', bounded=[('c15_source.py', 'layout grammar for defs and lambdas, recovered tree vs the node compiled by the interpreter')],
                 explanation='bounded stand-in in this revision'),
     'C18': dict(level='other', bounded=[('c18_anf.py', 'side-effecting calls in every operand position, default and random configurations')],
